@@ -800,6 +800,7 @@ def c02(ctx: Ctx) -> None:
                       'after a failed (timed-out / non-blocking) acquire this function still calls release(): it unlocks and closes the '
                       'descriptor of the thread that really holds the lock, letting a third contender in',
                       witness=render(g, w), construct=construct_key(f.qualname, 'release without own acquire'))
+    _rule_fresh_acquire_can_succeed(ctx, r, 'C02-R1')
     _rule_surplus_release(ctx, r, 'C02-R10')
     ctx.rule('C02-R13', 'counter and descriptor are touched only while the in-process lock is surely held: nothing after an unlock in the same activation (= C12-R10)', 2)
     _rule_state_after_unlock(ctx, r, 'C02-R13')
@@ -1185,6 +1186,21 @@ def c12(ctx: Ctx) -> None:
     ctx.rule('C12-R11', 'acquire_ctx() hands its (blocking, timeout, poll_interval) to acquire() unchanged, each in its own position', 1)
     _rule_forwarding(ctx, r)
     ctx.rule('C12-R12', 'release() never releases the in-process lock more often than the caller holds it', 1)
+    _rule_fresh_acquire_can_succeed(ctx, r, 'C12-R1')
+    # a nested acquire (this thread holds the lock: counter >= 1, descriptor set) takes the fast path: it never attempts the
+    # OS lock again - a second open + flock on the same file from the same process contends with the descriptor it already holds
+    try:
+        it_n = r.interp(ctx.program)
+        outs_n = it_n.run(r.acquire, _entry_state(1, True))
+        ga_n = build(r.acquire, ctx.program, inline_methods=True)
+        again = [s_ for o_ in sites_of(ga_n, r.os_acquire) for s_ in it_n.call_states.get(id(o_.ast), [])]
+        ctx.check('C12-R1', f'nested acquire() (held, c >= 1): {len(outs_n)} path(s), OS attempts on them: {len(again)}', f'{FILE}:{r.acquire.lineno}',
+                  not again and bool(outs_n), 'the holder re-enters without touching the OS lock',
+                  'a nested acquire() of the holder attempts the OS lock again: a second descriptor is opened and locked against the one already held '
+                  '(it blocks or fails for ever; on success the inner release drops a lock the outer level still relies on)',
+                  witness=again[0].trace if again else [], construct=construct_key(r.acquire.qualname, 'nested acquire attempts the OS lock'))
+    except Undecided as e:
+        ctx.undecided('C12-R1', 'nested acquire()', f'{FILE}:{r.acquire.lineno}', str(e))
     _rule_surplus_release(ctx, r, 'C12-R12')
     # R1 acquire
     try:
@@ -1411,6 +1427,28 @@ def _rule_state_after_unlock(ctx: Ctx, r: LockRoles, rule: str = 'C12-R10') -> N
                    "thread's acquire() interleaves, its counter is decremented / its lock released by this activation") if bad else
                   'no release site of the in-process lock found',
                   construct=construct_key(f.qualname, 'protected state touched after unlock', norm(bad[0].meta.get('stmt') or bad[0].ast) if bad else ''))
+
+
+def _rule_fresh_acquire_can_succeed(ctx: Ctx, r: LockRoles, rule: str) -> None:
+    """Safety rules are satisfied by an acquire() that never succeeds; the property also says the lock *can* be taken: from a
+    normally returning call of the OS acquire helper some path leads to `return True` (the success test after the attempt is
+    not constantly false, the success branch is not dead)."""
+    g = build(r.acquire, ctx.program, inline_methods=True, no_inline=(r.os_acquire.qualname,))     # (the attempt may sit in a helper of acquire())
+    attempts = sites_of(g, r.os_acquire)
+    trues = [n for n in g.nodes if n.kind == 'return' and isinstance(n.ast.value, ast.Constant) and n.ast.value.value is True]
+    if not attempts:
+        ctx.undecided(rule, 'acquire(): no call of the OS acquire helper found on the expanded graph', f'{FILE}:{r.acquire.lineno}', 'attempt site not recognised')
+        return
+    if not trues:
+        # (success reported through a variable / a helper's return value: followed by the interpretation under C02-R1, not here)
+        rets_ = [n for n in g.nodes if n.kind == 'return' and n.ast.value is not None and not (isinstance(n.ast.value, ast.Constant) and n.ast.value.value is False)]
+        trues = rets_
+    starts = [e for a_ in attempts for e in g.succ[a_.id] if e.label != 'exc']
+    w = find_path(g, [], trues, start_edges=starts) if attempts and trues else None
+    ctx.check(rule, f'acquire(): an OS attempt ({len(attempts)} site(s)) can be followed by `return True`', f'{FILE}:{r.acquire.lineno}',
+              w is not None, 'a free lock can be taken', 'no path leads from an attempt on the OS lock to `return True`: acquire() of a free lock never succeeds '
+              '(it polls for ever, or reports failure while holding the descriptor)',
+              construct=construct_key(r.acquire.qualname, 'fresh acquire cannot succeed'))
 
 
 def _rule_surplus_release(ctx: Ctx, r: LockRoles, rule: str) -> None:
